@@ -140,6 +140,23 @@ func init() {
 		}
 		x.Comment("store/state.go Check ranges over p.Statements and calls IsBreakingPragma(stmt.Sql)")
 		x.DefBool("pragmaCheckCoversEveryStatement", chk)
+		// the whole body of Check, statement by statement, and the body of its range loop:
+		// any statement that can skip an element (continue / break / an extra condition) shows up here
+		var checkBody, loopBody []string
+		if fd := x.Func("store", "PragmaCheckRequest", "Check"); fd != nil {
+			for _, st := range fd.Body.List {
+				if r, ok := st.(*ast.RangeStmt); ok {
+					checkBody = append(checkBody, "for "+x.Src(r.Key)+", "+x.Src(r.Value)+" := range "+x.Src(r.X))
+					for _, b := range r.Body.List {
+						loopBody = append(loopBody, x.Src(b))
+					}
+				} else {
+					checkBody = append(checkBody, x.Src(st))
+				}
+			}
+		}
+		x.DefStrings("pragmaCheckBody", checkBody)
+		x.DefStrings("pragmaCheckLoopBody", loopBody)
 		// db/state.go: the critical names
 		var names []string
 		if init := x.PkgValue("db", "BreakingPragmas"); init != nil {
